@@ -278,8 +278,11 @@ class _FunctionAnalysis:
         if isinstance(st, ast.AugAssign):
             rhs = self.eval(st.value, env)
             if isinstance(st.target, ast.Name):
+                setop = isinstance(st.op, (ast.BitOr, ast.BitAnd, ast.BitXor))
                 for v in env.get(st.target.id, ()):  # in-place operators mutate sets/lists/dicts
-                    if v[0] in ("tab", "in", "obj", "elem"):
+                    # `x -= y` / `x += y` on a parameter of unknown type is arithmetic unless x is
+                    # known to be a stored container
+                    if v[0] in ("tab", "in") or (v[0] in ("obj", "elem") and setop):
                         self.write_value(v, st, keylevel=False)
             elif isinstance(st.target, ast.Subscript):
                 for v in self.eval(st.target.value, env):
@@ -435,6 +438,9 @@ class _FunctionAnalysis:
                 if v[0] == "cont":
                     elems |= v[1]
                 elif v[0] in ("in", "elem", "obj"):
+                    # the value may itself be a component of an (id, value) pair produced by
+                    # .items()/zip()/enumerate(), or a container that is being unpacked
+                    elems |= {v if v[0] != "obj" else ("elem", v[1])}
                     elems |= self.elements(frozenset([v]))
             for e in target.elts:
                 if isinstance(e, ast.Starred):
